@@ -357,9 +357,47 @@ func batchChildOnly(b *Batch) bool {
 	return false
 }
 
+// genStructural draws a batch without any key operation: along a path of
+// 1-3 child names it ends by deleting a child or by creating an empty one.
+func (g *genState) genStructural(t *rapid.T) *Batch {
+	depth := rapid.IntRange(1, 3).Draw(t, "sdepth")
+	root := &Batch{}
+	cur := root
+	node := g.model
+	path := ""
+	for d := 1; d <= depth; d++ {
+		name := rapid.SampledFrom(childPool[:3]).Draw(t, "sname")
+		path += "/" + name
+		var sub *Node
+		if node != nil {
+			sub = node.Children[name]
+		}
+		last := d == depth
+		if last && sub != nil && rapid.Bool().Draw(t, "sdel") {
+			cur.Children = append(cur.Children, ChildBatch{Name: name, Del: true})
+			g.deadKids[path] = true
+			return root
+		}
+		if sub == nil && g.spec.NoRecreate && g.deadKids[path] {
+			g.excluded++
+			return root
+		}
+		nb := &Batch{}
+		cur.Children = append(cur.Children, ChildBatch{Name: name, B: nb})
+		cur = nb
+		node = sub
+	}
+	return root
+}
+
 func (g *genState) nextBatch(t *rapid.T) *Batch {
 	g.batchNo++
-	b := g.genBatch(t, g.model, 0, "")
+	var b *Batch
+	if g.spec.Children && !g.spec.NoStructOnly && chance(t, "structural", 6) {
+		b = g.genStructural(t)
+	} else {
+		b = g.genBatch(t, g.model, 0, "")
+	}
 	if g.spec.NoChildOnly && batchChildOnly(b) {
 		g.excluded++
 		k := []byte("a")
